@@ -444,8 +444,8 @@ fn run_transport(
                         // make sure space is freed up as much as possible.
                         let done = drive_connection(conn, wbuf, msgs);
                         if done {
+                            // The client is accounted for when it is actually removed, below.
                             clients_to_remove.push(*token);
-                            state.decrement_clients();
                             continue;
                         }
 
@@ -467,7 +467,6 @@ fn run_transport(
                         let done = drive_connection(conn, wbuf, msgs);
                         if done {
                             clients_to_remove.push(*token);
-                            state.decrement_clients();
                         }
                     }
 
